@@ -213,13 +213,17 @@ func checkAddVote(r *Run) {
 			okCV = true
 		}
 	})
-	eqSender := eqG("Witnesses[i] == node", true, func(v ssa.Value) bool { return strings.Contains(pathOf(v).FieldString(), "Witnesses") || isRangeElemOf(v, "Witnesses") }, paramIs(cv, 1))
+	eqSender := eqG("Witnesses[i] == node", true, func(v ssa.Value) bool {
+		return strings.Contains(pathOf(v).FieldString(), "Witnesses") || isRangeElemOf(v, "Witnesses")
+	}, paramIs(cv, 1))
 	r.Check(okCV && len(eqSender.Edges(p, cv)) > 0, "C15.votes", fname(cv), "voted = FinalityVotes[position of the sender among Witnesses] > 0",
 		"the not-voted test looks at the sender's own slot", "CheckIfVoted no longer derives the sender's slot from the witness list", p.pos(cv.Pos()))
 }
 
 func isRangeElemOf(v ssa.Value, field string) bool {
-	return derivesFrom(v, func(y ssa.Value) bool { return strings.HasSuffix(pathOf(y).FieldString(), field) || strings.Contains(pathOf(y).FieldString(), field+".") })
+	return derivesFrom(v, func(y ssa.Value) bool {
+		return strings.HasSuffix(pathOf(y).FieldString(), field) || strings.Contains(pathOf(y).FieldString(), field+".")
+	})
 }
 
 // checkThresholds: evaluate Finalized/Failed over n witnesses and v votes.
